@@ -9,7 +9,9 @@
     - [inv_linkid]   within one container a link name equals an id only if it is the same entity's
                      (this is what makes a uuid-shaped NAME harmless for lookups by id)
     - [inv_links]    every link container holds each target at most once ("keyed by target id") and every
-                     link (list or single) points to an entity that is in the file
+                     link (list, single or inside a dimension descriptor) points to an entity that is in the file
+                     (C04: no dangling reference)
+    - [inv_parent]   tree closure: the parent of every entity is in the file, and was created before it
 
     Hypotheses on the id supply (Section variables, stated where used):
     - [ids_inj]   the supply is injective             — unique ids from unique oids, [find_id] finds the right entity
@@ -121,7 +123,8 @@ Notation link_name := (link_name ids).
 
 Definition links_alive (s : db) (l : links) : Prop :=
   (forall sl, NoDup (get_l sl l) /\ forall t, In t (get_l sl l) -> alive s t = true) /\
-  (forall sl t, get_o sl l = Some t -> alive s t = true).
+  (forall sl t, get_o sl l = Some t -> alive s t = true) /\
+  (forall t, In (DimFrame (Some t)) (l_dims l) -> alive s t = true).
 
 Record Inv (s : db) : Prop := mkInv {
   inv_sorted : StronglySorted lt (map e_oid (ents s));
@@ -131,7 +134,8 @@ Record Inv (s : db) : Prop := mkInv {
   inv_nonempty : forall e, In e (ents s) -> e_kind e <> KFeature -> e_name e <> EmptyString;
   inv_linkid : forall p k e1 e2, In e1 (children s p k) -> In e2 (children s p k) -> link_name e1 = eid e2 -> e1 = e2;
   inv_links : forall e, In e (ents s) -> links_alive s (e_links e);
-  inv_bound : next s <= N
+  inv_bound : next s <= N;
+  inv_parent : forall e p, In e (ents s) -> e_parent e = Some p -> alive s p = true /\ p < e_oid e
 }.
 
 (** ** basic consequences *)
@@ -273,10 +277,14 @@ Proof.
   - intros e He. rewrite ents_upd in He. apply in_map_iff in He. destruct He as [a [Ha Hin]]. subst.
     assert (Hal : links_alive s (e_links (updf o f a))).
     { unfold updf. destruct (e_oid a =? o) eqn:E; [apply Nat.eqb_eq in E; apply Hl; auto | apply (inv_links _ H _ Hin)]. }
-    destruct Hal as [A1 A2]. split.
+    destruct Hal as [A1 [A2 A3]]. split; [|split].
     + intros sl. destruct (A1 sl) as [Nd T]. split; auto. intros t Ht. rewrite alive_upd; auto.
     + intros sl t Ht. rewrite alive_upd; auto. eapply A2; eauto.
+    + intros t Ht. rewrite alive_upd; auto.
   - simpl. apply (inv_bound _ H).
+  - intros e p He Hp. rewrite ents_upd in He. apply in_map_iff in He. destruct He as [a [Ha Hin]]. subst.
+    destruct (hkey_parts _ _ (updf_hdr o f a Hh)) as [O [_ [_ [P _]]]]. rewrite O. rewrite P in Hp.
+    rewrite alive_upd; auto. apply (inv_parent _ H _ _ Hin Hp).
 Qed.
 
 (** ** add_ent: a new entity at the end *)
@@ -301,19 +309,21 @@ Record addable (s : db) (e : ent) : Prop := mkAddable {
   ad_name_not_id : forall x, In x (children s (e_parent e) (e_kind e)) -> link_name e <> eid x;
   ad_id_fresh : forall x, In x (ents s) -> link_name x <> ids (next s);     (* freshness of the supply *)
   ad_links : links_alive (add_ent s e) (e_links e);
-  ad_bound : next s < N
+  ad_bound : next s < N;
+  ad_parent : forall p, e_parent e = Some p -> alive s p = true
 }.
 
 Lemma links_alive_add s e l : links_alive s l -> links_alive (add_ent s e) l.
 Proof.
-  intros [A1 A2]. split.
+  intros [A1 [A2 A3]]. split; [|split].
   - intros sl. destruct (A1 sl) as [Nd T]. split; auto. intros t Ht. apply alive_add_old; auto.
   - intros sl t Ht. apply alive_add_old. eapply A2; eauto.
+  - intros t Ht. apply alive_add_old; auto.
 Qed.
 
 Lemma inv_add s e : Inv s -> addable s e -> Inv (add_ent s e).
 Proof.
-  intros H A. destruct A as [Ao Ai An Ane Ani Af Al Ab]. constructor.
+  intros H A. destruct A as [Ao Ai An Ane Ani Af Al Ab Ap]. constructor.
   - simpl. rewrite map_app. simpl. apply StronglySorted_app_one; [apply (inv_sorted _ H)|].
     rewrite Forall_forall. intros y Hy. apply in_map_iff in Hy. destruct Hy as [x [Hx Hin]]. subst.
     rewrite Ao. apply (inv_below _ H _ Hin).
@@ -344,7 +354,11 @@ Proof.
     + destruct H1 as [H1|[]]; destruct H2 as [H2|[]]. eapply (inv_linkid _ H); eauto.
   - simpl. intros x Hx. apply in_app_or in Hx. destruct Hx as [Hx|[Hx|[]]]; subst; auto.
     apply links_alive_add. apply (inv_links _ H _ Hx).
-  - simpl. lia.
+  - simpl. pose proof (inv_bound _ H). lia.
+  - simpl. intros x p Hx Hp. apply in_app_or in Hx. destruct Hx as [Hx|[Hx|[]]]; subst.
+    + destruct (inv_parent _ H _ _ Hx Hp) as [P1 P2]. split; auto. apply alive_add_old; auto.
+    + split; [apply alive_add_old; auto|]. rewrite Ao. specialize (Ap _ Hp). apply alive_iff in Ap.
+      destruct Ap as [y [Hy Ey]]. subst. apply (inv_below _ H _ Hy).
 Qed.
 
 (** ** remove_subtree *)
@@ -386,6 +400,73 @@ Proof. destruct sl; reflexivity. Qed.
 Lemma get_o_scrub dead sl l : get_o sl (scrub_links dead l) = scrub_o dead (get_o sl l).
 Proof. destruct sl; reflexivity. Qed.
 
+(** ** the subtree: closed under children (a parent precedes its children in the list) *)
+Definition dead_fold (x : nat) (l : list ent) (acc : list nat) : list nat := fold_left (dead_step x) l acc.
+
+Lemma subtree_fold s x : subtree s x = dead_fold x (ents s) [].
+Proof. reflexivity. Qed.
+
+Lemma dead_step_mono x acc e o : In o acc -> In o (dead_step x acc e).
+Proof. intros H. unfold dead_step. destruct (_ || _); simpl; auto. Qed.
+
+Lemma dead_fold_mono x l acc o : In o acc -> In o (dead_fold x l acc).
+Proof.
+  revert acc. induction l as [|a l IH]; simpl; intros acc H; auto. apply IH. apply dead_step_mono; auto.
+Qed.
+
+(** every member is the root or a child of a member, and is an entity of the list *)
+Lemma dead_fold_sound x l acc o :
+  In o (dead_fold x l acc) ->
+  In o acc \/ exists e, In e l /\ e_oid e = o /\ (o = x \/ exists p, e_parent e = Some p /\ In p (dead_fold x l acc)).
+Proof.
+  revert acc. induction l as [|a l IH]; simpl; intros acc H; auto.
+  apply IH in H. destruct H as [H|[e [He [Eo D]]]].
+  - unfold dead_step in H. destruct (_ || _) eqn:C; auto. destruct H as [H|H]; auto.
+    right. exists a. split; auto. split; auto. apply orb_true_iff in C. destruct C as [C|C].
+    + left. apply Nat.eqb_eq in C. congruence.
+    + right. destruct (e_parent a) as [p|]; simpl in C; [|discriminate]. exists p. split; auto.
+      apply dead_fold_mono. apply dead_step_mono. apply memn_In; auto.
+  - right. exists e. split; auto.
+Qed.
+
+(** a member's children are members *)
+Lemma dead_fold_closed x l acc e p :
+  StronglySorted lt (map e_oid l) -> (forall a q, In a l -> e_parent a = Some q -> q < e_oid a) ->
+  In e l -> e_parent e = Some p -> In p (dead_fold x l acc) -> In (e_oid e) (dead_fold x l acc).
+Proof.
+  revert acc. induction l as [|a l IH]; simpl; intros acc S P He Hp Hin; [contradiction|].
+  inversion S as [|? ? S' F]; subst. destruct He as [He|He].
+  - subst a. apply dead_fold_mono.
+    assert (Hacc : In p acc).
+    { apply dead_fold_sound in Hin. destruct Hin as [Hin|[e' [He' [Eo _]]]].
+      - unfold dead_step in Hin. destruct (_ || _); auto. destruct Hin as [Hin|Hin]; auto.
+        exfalso. specialize (P e p (or_introl eq_refl) Hp). lia.
+      - exfalso. rewrite Forall_forall in F. specialize (F (e_oid e') (in_map _ _ _ He')).
+        specialize (P e p (or_introl eq_refl) Hp). lia. }
+    unfold dead_step. rewrite Hp. simpl. apply memn_In in Hacc. rewrite Hacc, orb_true_r. simpl. auto.
+  - apply IH; auto.
+Qed.
+
+Lemma subtree_closed s x e p :
+  Inv s -> In e (ents s) -> e_parent e = Some p -> In p (subtree s x) -> In (e_oid e) (subtree s x).
+Proof.
+  intros H He Hp Hin. rewrite subtree_fold in *. eapply dead_fold_closed; eauto.
+  - apply (inv_sorted _ H).
+  - intros a q Ha Hq. apply (inv_parent _ H _ _ Ha Hq).
+Qed.
+
+Lemma subtree_sound s x o :
+  In o (subtree s x) -> exists e, In e (ents s) /\ e_oid e = o /\ (o = x \/ exists p, e_parent e = Some p /\ In p (subtree s x)).
+Proof. intros H. rewrite subtree_fold in *. apply dead_fold_sound in H. destruct H as [[]|H]; auto. Qed.
+
+Lemma subtree_root s x : alive s x = true -> In x (subtree s x).
+Proof.
+  intros A. apply alive_iff in A. destruct A as [e [He Eo]]. rewrite subtree_fold. generalize (@nil nat).
+  induction (ents s) as [|a l IH]; simpl; intros acc; [contradiction|]. destruct He as [He|He].
+  - subst a. apply dead_fold_mono. unfold dead_step. rewrite Eo, Nat.eqb_refl. left; auto.
+  - apply IH; auto.
+Qed.
+
 Lemma inv_remove s x : Inv s -> Inv (remove_subtree s x).
 Proof.
   intros H. set (dead := subtree s x). constructor.
@@ -411,7 +492,7 @@ Proof.
     rewrite (link_name_hdr a1), (eid_hdr a2) by reflexivity.
     intros He. rewrite (inv_linkid _ H p k a1 a2) by tauto. reflexivity.
   - intros e He. rewrite ents_remove in He. apply in_map_iff in He. destruct He as [a [Ha Hin]]. subst.
-    apply filter_In in Hin. destruct Hin as [Hin _]. destruct (inv_links _ H _ Hin) as [A1 A2]. split.
+    apply filter_In in Hin. destruct Hin as [Hin _]. destruct (inv_links _ H _ Hin) as [A1 [A2 A3]]. split; [|split].
     + intros sl. simpl. rewrite get_l_scrub. destruct (A1 sl) as [Nd T]. split.
       * apply NoDup_filter; auto.
       * intros t Ht. apply scrub_l_spec in Ht. destruct Ht as [Ht Hm]. rewrite alive_remove, (T _ Ht).
@@ -419,7 +500,16 @@ Proof.
     + intros sl t. simpl. rewrite get_o_scrub. unfold scrub_o. destruct (get_o sl (e_links a)) as [u|] eqn:G; simpl; [|discriminate].
       destruct (memn u (subtree s x)) eqn:M; [discriminate|]. intros Ht. inversion Ht; subst.
       rewrite alive_remove, (A2 _ _ G), M. reflexivity.
+    + intros t. simpl. rewrite in_map_iff. intros [d [Ed Hd]]. destruct d as [| | | |[u|]]; simpl in Ed; try discriminate.
+      unfold scrub_o in Ed. simpl in Ed. destruct (memn u (subtree s x)) eqn:M; [discriminate|]. inversion Ed; subst.
+      rewrite alive_remove, (A3 _ Hd), M. reflexivity.
   - simpl. apply (inv_bound _ H).
+  - intros e p He Hp. rewrite ents_remove in He. apply in_map_iff in He. destruct He as [a [Ha Hin]]. subst.
+    apply filter_In in Hin. destruct Hin as [Hin Hs]. change (e_parent a = Some p) in Hp. change (e_oid (with_links (scrub_links (subtree s x)) a)) with (e_oid a).
+    destruct (inv_parent _ H _ _ Hin Hp) as [P1 P2]. split; auto.
+    rewrite alive_remove, P1. simpl. destruct (memn p (subtree s x)) eqn:M; auto.
+    exfalso. apply memn_In in M. pose proof (subtree_closed s x a p H Hin Hp M) as C.
+    unfold survives in Hs. apply negb_true_iff in Hs. apply memn_false in Hs. contradiction.
 Qed.
 
 End Inv.
